@@ -43,7 +43,7 @@ pub const POINTS: [(&str, u8, &str); 25] = [
     ("wait:before_send", 2, "wait"),
     ("clear:after_signal", 2, "clear"),
 ];
-pub const RACERS: [&str; 12] = ["clear", "remove-same", "update-same", "insert-other", "get_mut-write", "tick", "wait", "get-same", "remove-other", "if-present-pending", "remove-inflight", "insert-inflight"];
+pub const RACERS: [&str; 13] = ["clear", "remove-same", "update-same", "insert-other", "get_mut-write", "tick", "wait", "get-same", "remove-other", "if-present-pending", "remove-inflight", "insert-inflight", "hold-guard"];
 
 struct Rec(Mutex<Vec<OpRec>>);
 impl Rec {
@@ -199,6 +199,9 @@ fn scenario(flavor: Flavor, point: &'static str, role: u8, trig: &'static str, r
         let (d3, rec3, ids3) = (d.clone_handle(), rec.clone(), ids.clone());
         let done = Arc::new(AtomicU64::new(0));
         let done2 = done.clone();
+        let (acquired, release) = (Arc::new(AtomicU64::new(0)), Arc::new(AtomicU64::new(0)));
+        let (acquired3, release3) = (acquired.clone(), release.clone());
+        let hold_mutable = seed % 2 == 1;
         let tb = std::thread::Builder::new().name("gate-racer".into()).spawn(move || {
             sched::set_role(3);
             let mut out: Vec<String> = Vec::new();
@@ -246,6 +249,28 @@ fn scenario(flavor: Flavor, point: &'static str, role: u8, trig: &'static str, r
                     }
                 }
                 "get_mut-write" => drop(do_simple(d3.as_ref(), &rec3, 3, OP_GET_MUT_WRITE, same, &ids3)),
+                // a look-up guard (the shard lock) on the shared key, held until after the parked thread has
+                // been released: whatever that thread does next meets a held shard lock
+                "hold-guard" => {
+                    let mut r = OpRec { tid: 3, op: OP_GET, key: same, ..Default::default() };
+                    r.call = seq::next();
+                    let (acq, rel) = (acquired3.clone(), release3.clone());
+                    let got = d3.get_hold(same, hold_mutable, &move || {
+                        acq.store(1, Ordering::SeqCst);
+                        let t0 = std::time::Instant::now();
+                        while rel.load(Ordering::SeqCst) == 0 && t0.elapsed() < Duration::from_secs(5) {
+                            std::thread::yield_now();
+                        }
+                    });
+                    acquired3.store(1, Ordering::SeqCst);
+                    r.ret = seq::next();
+                    if let Some(s) = got {
+                        r.hit = true;
+                        r.seen_id = s.id;
+                        r.seen_key = s.key;
+                    }
+                    rec3.push(r);
+                }
                 "tick" => {
                     clock::advance(Duration::from_secs(2));
                     ticker::tick();
@@ -258,11 +283,16 @@ fn scenario(flavor: Flavor, point: &'static str, role: u8, trig: &'static str, r
         }).unwrap();
         // give the racer time to finish; if it does not, it is waiting for the parked thread (legal)
         let t0 = std::time::Instant::now();
-        while done.load(Ordering::SeqCst) == 0 && t0.elapsed() < Duration::from_millis(150) {
+        while done.load(Ordering::SeqCst) == 0 && t0.elapsed() < Duration::from_millis(150) && !(racer == "hold-guard" && acquired.load(Ordering::SeqCst) != 0) {
             std::thread::sleep(Duration::from_micros(200));
         }
-        racer_blocked = done.load(Ordering::SeqCst) == 0;
+        racer_blocked = done.load(Ordering::SeqCst) == 0 && racer != "hold-guard";
         gate.open();
+        if racer == "hold-guard" {
+            // the released thread runs into the held shard lock (or past it); then the guard is dropped
+            std::thread::sleep(Duration::from_millis(4));
+            release.store(1, Ordering::SeqCst);
+        }
         if let Ok(v) = tb.join() {
             immediacy.extend(v);
         }
